@@ -187,7 +187,8 @@ func genConc(seed int64, n int, tier string, w *bufio.Writer) {
 var registerMu sync.Mutex
 
 // registerProviders registers fresh session and topics providers under name.  The library's
-// registries are plain package-level maps (finding G4), so concurrent scenarios serialise here.
+// registries were plain package-level maps without a lock (finding G4, repaired: each is guarded
+// by its package's providersMu now); the serialisation here predates the repair and is harmless.
 func registerProviders(name string) {
 	registerMu.Lock()
 	defer registerMu.Unlock()
